@@ -1,5 +1,6 @@
 //! Per-property recording commands, one module per property (registered here).
 use crate::Args;
+pub mod c03;
 pub mod c07;
 pub mod c12;
 pub mod c16;
@@ -8,6 +9,8 @@ pub mod rel;
 
 pub fn dispatch(_cmd: &str, _a: &Args) -> bool {
     match _cmd {
+        "c03" => c03::run(_a),
+        "c03-suite" => c03::suite(_a),
         "c07" => c07::run(_a),
         "c12" => c12::run(_a),
         "c16" => c16::run(_a),
